@@ -46,7 +46,7 @@ THEOREMS = [
     "time_delta_add_comm", "expression_affine", "expression_same_point", "expression_defined", "duration_format_irrelevant", "mixed_scale_refused", "meaningless_refused",
     "result_scale_fmt", "operands_untouched", "results_fresh_and_frozen", "c03_seconds_inplace_refuted", "c03_val2_aliased_refuted",
     "delta_to_jds_value", "delta_to_jds_normalised", "delta_from_to_jds",
-    "two_part_accuracy", "method_eqb_sound", "method_eqb_complete", "gen_is_model", "gen_neg_is_model", "gen_delta_formats_are_model", "gen_laws_if_clean",
+    "two_part_accuracy", "two_part_accuracy_binary64", "method_eqb_sound", "method_eqb_complete", "gen_is_model", "gen_neg_is_model", "gen_delta_formats_are_model", "gen_laws_if_clean",
     "gen_delta_class_for_every_scale",
     "c03_sub_drops_days_refuted", "c03_add_collapses_refuted", "c03_neg_keeps_jds_refuted",
 ]
